@@ -332,11 +332,12 @@ def _formula_worker(cases):
 # ------------------------------------------------------------------------------------------
 # poly
 # ------------------------------------------------------------------------------------------
-# tolerance for all float comparisons of poly: POLY_C * n * eps * kappa, where kappa = max_k ||(x-mean)^k|| / ||p_k||
-# (exactly computed from the data) is the cancellation any method forming p_k from powers of x suffers.
-# Calibration: over 3000 generated vectors the largest observed error / (n*eps*kappa) was 19.
-POLY_C = 256
-POLY_KAPPA_MAX = 1e7  # beyond this the tolerance is no longer a meaningful check (>= 1e-6): case skipped
+# tolerance for all float comparisons of poly: POLY_C * n * eps * kappa, where
+# kappa = (1 + max|x|/rms(x-mean)) * max_k ||(x-mean)^k|| / ||p_k||  (exactly computed from the data) is the
+# cancellation any method forming x - mean and then p_k from powers of it suffers.
+# Calibration: over 12558 generated vectors the largest observed error / (n*eps*kappa) was 0.42.
+POLY_C = 32
+POLY_KAPPA_MAX = 1e8  # beyond this the tolerance (>= 1e-5) is no longer a meaningful check: case skipped
 
 POLY_CODE = """
 import numpy as np, pandas as pd
@@ -348,7 +349,7 @@ nan_at = {nan_at}
 y = {y}
 E, kappa = exact_orthopoly(x, degree, with_kappa=True)    # exact orthonormal basis of span{{1,x..x^d}} minus the constant
 E = np.array(E)
-TOL = 256 * len(x) * 2.220446049250313e-16 * kappa         # kappa: cancellation factor of the data (>= 1)
+TOL = 32 * len(x) * 2.220446049250313e-16 * kappa          # kappa: cancellation factor of the data (>= 1)
 st = {{}}
 Q = np.asarray(poly({ctor}(x), degree, _state=st), dtype=float)
 clause = {clause!r}
